@@ -295,6 +295,7 @@ func (app *App) addPrefixToRoute(prefix string, route *Route) *Route {
 	route.Path = prefixedPath
 	route.path = RemoveEscapeChar(prettyPath)
 	route.routeParser = parseRoute(prettyPath, app.customConstraints...)
+	route.Params = parseRoute(prefixedPath, app.customConstraints...).params
 	route.root = false
 	route.star = false
 
